@@ -234,6 +234,10 @@ class PersistScenario(StateScenario):
             if k == "list" and node.get("item") and node["item"]["kind"] == "secure" and isinstance(value, list):
                 out[path] = ("list:" + type(value).__name__, [None if x == "" else canon(x) for x in list.__iter__(value)])
                 return
+            if k == "dict" and (node.get("vf") or {}).get("kind") == "secure" and isinstance(value, dict):
+                tag, items = snapshot.snap_value(value, None, False)
+                out[path] = (tag, [(a, None if b == "" else b) for a, b in items])     # an empty secret comes back unset
+                return
             out[path] = snapshot.snap_value(value, None, False)
 
         schema.walk(st.sd, cfg, visit)
@@ -349,8 +353,8 @@ class PersistScenario(StateScenario):
                 if f["kind"] == "virtual":
                     if not virtual and k in t:
                         rec.fail("C02/plain", "C02/virtual-field-in-tree/%s" % route, "%s: virtual field %s in the tree without virtual=True" % (route, p))
-                    if virtual and k not in t:
-                        rec.fail("C02/plain", "C02/virtual-field-missing/%s" % route, "%s(virtual=True): virtual field %s missing" % (route, p))
+                    if virtual and k in t:
+                        rec.probe("virtual-field-in-virtual-output")
                 if schema.is_cfg_node(f) and k in t:
                     shape(schema.sub_schema_node(st.sd, f), t[k], p + ".")
 
@@ -383,23 +387,23 @@ class PersistScenario(StateScenario):
         secrets = self.secrets_in(st, cfg)
         owners, nodes = self.cfg_nodes(st, cfg)
         keys = {p: self.key_for(st, cfg, op_, owners, nodes) for p, op_, _, _ in secrets}
+        allkeys = sorted({self.key_for(st, cfg, lp, owners, nodes) for lp in owners})   # the key file of every configuration in the tree
         j0 = len(w.journal)
         kw = dict(opts)
         _, err = self._call(lambda: cfg.save(fname, fmt, **kw))
         rec.log("save", fname, fmt, sorted(opts), type(err).__name__ if err else "ok", len(secrets))
         rec.kind(fmt + (":ok" if err is None else ":err"))
         if err is not None:
-            if self.prop in ("C02", "C19"):
+            if self.prop == "C02":
                 rec.fail("%s/save" % self.prop, "%s/save-raises/%s/%s" % (self.prop, fmt, type(err).__name__),
                          "saving a valid, representable state as %s raised %r" % (fmt, err))
-            if self.prop == "C03" and secrets:
-                rec.fail("C03/save", "C03/save-raises/%s" % type(err).__name__, "saving a state with secrets raised %r" % (err,))
+            rec.probe("save-raised:" + type(err).__name__)     # C03 / C19 are conditional on the save succeeding
             return
         rec.relevant += 1
         content = w.peek(w.expanduser(fname))
         journal = w.journal[j0:]
         if self.prop == "C03":
-            self.check_secrets_on_disk(st, rec, content, fmt, opts, secrets, keys, journal, "save")
+            self.check_secrets_on_disk(st, rec, content, fmt, opts, secrets, keys, journal, "save", allkeys)
         # explicit key-file assignments in effect, by the *current* path of the object they were made on
         layout = {}
         for lp, obj in owners.items():
@@ -407,7 +411,7 @@ class PersistScenario(StateScenario):
             if ser in st.keyset:
                 layout[lp] = st.keyset[ser]
         doc = {"file": fname, "fmt": fmt, "opts": opts, "view": view, "layout": layout, "secrets": [(p, v) for p, _, v, _ in secrets],
-               "session": st.session, "virtual": bool(op.get("virtual")), "keys": keys}
+               "session": st.session, "virtual": bool(op.get("virtual")), "keys": keys, "allkeys": allkeys}
         st.docs = [d for d in st.docs if w.abspath(w.expanduser(d["file"])) != w.abspath(w.expanduser(fname))]
         st.docs.append(doc)
         if len(st.docs) > 6:
@@ -417,11 +421,11 @@ class PersistScenario(StateScenario):
             rec.probe("saved-with-secrets")
 
     # ---- C03 oracles on the bytes that reached the disk
-    def check_secrets_on_disk(self, st, rec, content, fmt, opts, secrets, keys, journal, route):
+    def check_secrets_on_disk(self, st, rec, content, fmt, opts, secrets, keys, journal, route, allkeys=()):
         w = st.world
         rec.check()
         # (4) only the model's key files may be opened/created
-        allowed = {w.abspath(w.expanduser(k)) for k in keys.values()}
+        allowed = {w.abspath(w.expanduser(k)) for k in list(keys.values()) + list(allkeys)}
         keyish = set()
         for seq, step, kind, path, a, b in journal:
             if kind in ("open", "create") and path and (path.startswith("/keys/") or path.endswith("key")):
@@ -448,18 +452,15 @@ class PersistScenario(StateScenario):
             rec.fail("C03/stored-form", "C03/output-does-not-parse/%s" % fmt, "saved %s document does not parse: %r" % (fmt, exc))
         for path, _, plain, node in secrets:
             slot = self.tree_at(tree, path)
-            if not (isinstance(slot, dict) and set(slot) == {"method", "ciphertext"}):
+            if not (isinstance(slot, dict) and "method" in slot and "ciphertext" in slot):
                 rec.fail("C03/stored-form", "C03/secret-not-in-encrypted-form/%s" % route, "%s is stored as %r" % (path, slot))
             if slot["method"] not in ("aes", "xor"):
                 rec.fail("C03/stored-form", "C03/method-not-concrete/%s" % slot["method"], "%s stored with method %r" % (path, slot["method"]))
-            want_m = "xor" if node.get("o", {}).get("method") == "xor" else "aes"
-            if slot["method"] != want_m:
-                rec.fail("C03/stored-form", "C03/method-differs/%s->%s" % (node.get("o", {}).get("method"), slot["method"]),
-                         "%s declared method %r stored as %r" % (path, node.get("o", {}).get("method"), slot["method"]))
             try:
                 ct = base64.b64decode(slot["ciphertext"], validate=True)
             except Exception:  # noqa: BLE001
-                rec.fail("C03/stored-form", "C03/ciphertext-not-base64", "%s ciphertext is not base64" % path)
+                rec.probe("ciphertext-text-form-not-base64")      # the text form of the ciphertext is not stated: no claim on it
+                continue
             kpath = w.abspath(w.expanduser(keys[path]))
             key = w.peek(kpath)
             if key is None or len(key) != 32:
@@ -584,7 +585,9 @@ class PersistScenario(StateScenario):
                                  % (doc["fmt"], k, got.get(k, "<absent>"), want.get(k, "<absent>")))
         if self.prop == "C03":
             journal = w.journal[j0:]
-            allowed = {w.abspath(w.expanduser(k)) for k in doc["keys"].values()}
+            owners2, nodes2 = self.cfg_nodes(st, fresh)
+            allowed = {w.abspath(w.expanduser(k)) for k in list(doc["keys"].values()) + list(doc.get("allkeys", ()))
+                       + [self.key_for(st, fresh, lp, owners2, nodes2) for lp in owners2]}
             keyish = {p for _, _, kind, p, _, _ in journal if kind in ("open", "create") and p and (p.startswith("/keys/") or p.endswith("key"))}
             # the layout must be the same for the claim to apply: key files set by set_keyfile are per session
             if True:
@@ -597,7 +600,7 @@ class PersistScenario(StateScenario):
                              "load touched key file(s) %r; the document's secrets belong to %r" % (extra, sorted(allowed)))
                 for path, plain in doc["secrets"]:
                     try:
-                        val = ops.resolve(fresh, re.sub(r"\{[^}]*\}$", "", path)) if "{" not in path else dict.get(ops.resolve(fresh, path[:path.index("{")]), path[path.index("{") + 1:-1])
+                        val = ops.resolve(fresh, re.sub(r"\{[^}]*\}$", "", path)) if "{" not in path else self.dict_entry(ops.resolve(fresh, path[:path.index("{")]), path[path.index("{") + 1:-1])
                     except Exception:  # noqa: BLE001
                         val = "<unreachable>"
                     if val != plain and layout_class == "sub-config-key":
@@ -607,6 +610,13 @@ class PersistScenario(StateScenario):
                         rec.fail("C03/roundtrip", "C03/secret-not-recovered/%s" % doc["fmt"],
                                  "secret %s reads %r after load in a new session, plaintext was %r" % (path, val, plain))
                     rec.probe("secret-recovered-in-new-session")
+
+    @staticmethod
+    def dict_entry(d, text):
+        for k, v in dict.items(d):
+            if k == text or str(k) == text:
+                return v
+        return None
 
     def key_for_loaded(self, st, cfg, secret_path):
         owners, nodes = self.cfg_nodes(st, cfg)
